@@ -92,7 +92,7 @@ func (g *genState) config() map[string]any {
 		var rules []any
 		for i := 0; i < 1+r.Intn(4); i++ {
 			rule := map[string]any{"type": hcommon.Pick(r, []int{0, 16, 32, 34, 48, 49, 64, 66, 70}),
-				"uri": hcommon.Pick(r, []string{"", "", "a.b", "p", "a"}), "decision": hcommon.Pick(r, []string{"deny", "deny", "fail", "allow"})}
+				"uri": hcommon.Pick(r, []string{"", "", "a.b", "p", "a"}), "decision": hcommon.Pick(r, []string{"deny", "deny", "fail", "allow", "allowerr"})}
 			if r.Chance(1, 3) {
 				rule["sess"] = 1 + r.Intn(3)
 			}
@@ -461,7 +461,10 @@ func (g *genState) next() map[string]any {
 			p = hcommon.Pick(r, []string{"p", "p.", "p.q", ""})
 		case 1:
 			o["match"] = "wildcard"
-			p = hcommon.Pick(r, []string{"p..r", ".q", "p.", ""})
+			// no two patterns of equal length match one procedure: the dealer
+			// prefers the longest matching pattern and leaves a tie to Go's
+			// map iteration order, which the property does not constrain
+			p = hcommon.Pick(r, []string{"p..r", "..r", "p.", ""})
 		}
 		if r.Chance(1, 2) {
 			o["invoke"] = hcommon.Pick(r, []any{"single", "first", "last", "roundrobin", "roundrobin", "first", "bogus"})
@@ -522,6 +525,12 @@ func (g *genState) next() map[string]any {
 		if r.Chance(1, 12) && len(g.calls[k]) > 0 {
 			rq = hcommon.Pick(r, g.calls[k]) // reuse the id of a pending call (a progressive chunk)
 			o["progress"] = r.Chance(1, 2)
+		}
+		if g.smallCap[k] && len(g.calls[k]) > 0 {
+			// a session with a tiny queue has one call pending at most: when its
+			// callee leaves, the dealer cancels that session's calls in Go map
+			// order, and which of several ERRORs still fits is not defined
+			rq = g.calls[k][0]
 		}
 		return msg(48, rq, g.hostile(o), p, args, kw)
 	case w < 74: // YIELD
@@ -626,6 +635,15 @@ func (g *genState) histBias() bool {
 	return g.prop == "C20" || (g.prop == "C11" && g.rng.Chance(1, 2))
 }
 
+func (g *genState) anySmallCap() bool {
+	for _, k := range g.live {
+		if g.smallCap[k] {
+			return true
+		}
+	}
+	return false
+}
+
 func (g *genState) remove(k int) {
 	for i, x := range g.live {
 		if x == k {
@@ -673,11 +691,20 @@ func (g *genState) metaCall(k int) map[string]any {
 		}
 		return call("wamp.session.kill", []any{g.sidRef()}, kw)
 	case 5:
+		if g.anySmallCap() {
+			// several sessions killed at once leave concurrently: what still fits
+			// into a tiny queue (GOODBYE or the ERROR for a call whose callee was
+			// killed too) depends on the order of their handlers
+			return call("wamp.session.count", nil, nil)
+		}
 		return call("wamp.session.kill_by_authid", []any{hcommon.Pick(r, []any{"alice", "bob", "nobody", 3})}, map[string]any{"reason": "app.kick"})
 	case 6:
+		if g.anySmallCap() {
+			return call("wamp.session.count", nil, nil)
+		}
 		return call("wamp.session.kill_by_authrole", []any{hcommon.Pick(r, []any{"user", "trusted", "admin"})}, nil)
 	case 7:
-		if r.Chance(1, 3) {
+		if r.Chance(1, 3) && !g.anySmallCap() {
 			return call("wamp.session.kill_all", nil, map[string]any{"message": "all out"})
 		}
 		return call("wamp.session.count", nil, nil)
@@ -753,8 +780,16 @@ func (g *genState) metaCall(k int) map[string]any {
 		if r.Chance(1, 2) {
 			akw["scope"] = hcommon.Pick(r, []any{"destroyed", "detached", "bogus", ""})
 		}
-		if r.Chance(1, 3) {
+		switch r.Intn(6) {
+		case 0, 1:
 			akw["publish_options"] = map[string]any{"exclude_authid": []any{"alice"}}
+		case 2, 3:
+			// anything a PUBLISH may carry: the meta session publishes the testament with these options
+			akw["publish_options"] = g.pubOptions()
+		case 4:
+			akw["publish_options"] = hcommon.Pick(r, []any{
+				map[string]any{"ppt_scheme": "mqtt"}, map[string]any{"ppt_scheme": "x", "ppt_serializer": "cbor", "acknowledge": true},
+				map[string]any{"disclose_me": true, "exclude_me": false}, "x", []any{1}, map[string]any{"acknowledge": true}})
 		}
 		if args == nil {
 			args = []any{}
